@@ -38,7 +38,7 @@ MANIFEST = {
 }
 RULE = ("ops c04_sighash / c04_sighash_segwit / c04_sighash_f (+ _spec twins), c04_sighash_fb (closure with begin_code_hash != 0), c04_tmp_tx, "
         "c04_preimage_*, c04_delete_subscript, c04_find_and_delete, "
-        "c04_script_code_spec, c04_seq, c04_checksol; all 256 hash-type bytes x input position {<,=,>} |vout| x {0,1,2} code separators x {with, without} "
+        "c04_script_code_spec, c04_seq, c04_seq2 (the object edited in place between the calls), c04_checksol; all 256 hash-type bytes x input position {<,=,>} |vout| x {0,1,2} code separators x {with, without} "
         "embedded signature push on fixed shapes for the five classes + seeded random transactions + call sequences on one object; c04_checksol: signed "
         "standard puzzles x six hash types (requests harvested) and custom scripts (harness/props/c04x_gen.py: 18 separator / embedded-signature / "
         "CHECKMULTISIG families x {bare, P2SH, P2WSH, P2SH-P2WSH} x hash-type assignments, scriptSig separators, 256-byte sweeps; requests written "
@@ -223,6 +223,41 @@ def impl(op: str) -> str:
                     r = call_checked(tx, lambda: sc._signature_for_hash_type_segwit(script, idx, ht))
                 res.append(hex64(r[1]) if r[0] == "ok" else ("!" + r[1] if r[0] == "err" else "MUTATED-TX"))
             return "ok " + ";".join(res)
+        if k == "c04_seq2":
+            # ONE transaction object and ONE checker: calls, then the object is edited in place into a second transaction (fields,
+            # inputs, outputs, recorded unspents), then calls again; every answer is the digest of the transaction AS IT IS THEN
+            coin, f1, us1, f2, us2, script = a[1], parse_fields(a[2]), parse_us(a[3]), parse_fields(a[4]), parse_us(a[5]), parse_bytes(a[6])
+            tx = build(coin, f1, us1)
+            sc = tx.SolutionChecker(tx)
+            res = []
+
+            def run(calls):
+                for call in calls.split(","):
+                    kd, idx, ht = call.split(":")
+                    idx, ht = int(idx), int(ht)
+                    if kd == "l":
+                        r = call_checked(tx, lambda: sc._signature_hash(script, idx, ht))
+                    else:
+                        r = call_checked(tx, lambda: sc._signature_for_hash_type_segwit(script, idx, ht))
+                    res.append(hex64(r[1]) if r[0] == "ok" else ("!" + r[1] if r[0] == "err" else "MUTATED-TX"))
+            run(a[7])
+            t2 = build(coin, f2, us2)
+            tx.version, tx.lock_time = t2.version, t2.lock_time
+            # edit in place the way callers do: item assignment / attribute assignment where the counts agree, else list surgery
+            if len(tx.txs_in) == len(t2.txs_in):
+                for i, ti in enumerate(t2.txs_in):
+                    o = tx.txs_in[i]
+                    o.previous_hash, o.previous_index, o.script, o.sequence, o.witness = ti.previous_hash, ti.previous_index, ti.script, ti.sequence, ti.witness
+            else:
+                tx.txs_in[:] = t2.txs_in
+            if len(tx.txs_out) == len(t2.txs_out):
+                for i, to in enumerate(t2.txs_out):
+                    tx.txs_out[i].coin_value, tx.txs_out[i].script = to.coin_value, to.script
+            else:
+                tx.txs_out[:] = t2.txs_out
+            tx.unspents = t2.unspents
+            run(a[8])
+            return "ok " + ";".join(res)
         if k == "c04_checksol":
             coin, f, us, idx = a[1], parse_fields(a[2]), parse_us(a[3]), int(a[4])
             tx = build(coin, f, us)
@@ -346,6 +381,22 @@ def oracle(op: str, out: str):
                 continue
             if "ok " + v != want:
                 return "the message handed to generator.verify during check_solution differs from the consensus definition (%s path, hash type 0x%x)" % (kd, ht)
+    if k == "c04_seq2" and out.startswith("ok"):
+        coin, script = a[1], parse_bytes(a[6])
+        got = out[3:].split(";")
+        plan = [(a[2], a[3], c) for c in a[7].split(",")] + [(a[4], a[5], c) for c in a[8].split(",")]
+        for (fs, uss, call), g in zip(plan, got):
+            kd, idx, ht = call.split(":")
+            tx = build(coin, parse_fields(fs), parse_us(uss))     # fresh objects for every call
+            sc = tx.SolutionChecker(tx)
+            try:
+                v = sc._signature_hash(script, int(idx), int(ht)) if kd == "l" else sc._signature_for_hash_type_segwit(script, int(idx), int(ht))
+                w = hex64(v)
+            except Exception as e:  # noqa: BLE001
+                w = "!" + type(e).__name__
+            if w != g:
+                return ("a call on a checker / transaction object that was edited in place differs from the same call on fresh objects "
+                        "holding the transaction as it is at that moment (%s)" % call)
     if k == "c04_seq" and out.startswith("ok"):
         coin, f, us, script = a[1], parse_fields(a[2]), parse_us(a[3]), parse_bytes(a[4])
         got = out[3:].split(";")
@@ -611,6 +662,35 @@ def gen(ctx, emit):
             for _ in range(ctx.n(6, 200)):
                 calls = [(rng.choice("lw"), rng.randrange(n), rng.choice(HT)) for _c in range(rng.randint(2, 6))]
                 emit("c04_seq %s %s %s %s %s" % (coin, show_fields(f), show_us(us), hx(code_with(rng.randrange(3), False)), ",".join("%s:%d:%d" % c for c in calls)))
+    # ---- the same, with the transaction EDITED IN PLACE between the calls (one field, one sequence, one amount, an output
+    # appended, an input appended, an unspent changed): a checker or a transaction that memoises part hashes answers for the past
+    def edits(f, us):
+        v, lt, ins, outs = f
+        yield (v, lt, ins, outs + [(12345, b"\x51")]), us
+        yield (v, lt, ins, [(outs[0][0] + 1, outs[0][1])] + outs[1:]), us
+        yield (v, lt, ins, [(outs[0][0], outs[0][1] + b"\x51")] + outs[1:]), us
+        yield (v, lt, [ins[0][:3] + ((ins[0][3] ^ 1),) + ins[0][4:]] + ins[1:], outs), us
+        yield (v, lt, ins[:-1] + [ins[-1][:3] + (5,) + ins[-1][4:]], outs), us
+        yield (v, lt, [ins[0][:1] + (ins[0][1] + 1,) + ins[0][2:]] + ins[1:], outs), us
+        yield (v, lt, ins + [(b"\x77" * 32, 3, b"", 0xFFFFFFFE, [])], outs), us + [(777, b"\x51")]
+        yield (v + 1, lt, ins, outs), us
+        yield (v, lt + 1, ins, outs), us
+        yield f, [(us[0][0] + 1, us[0][1])] + us[1:]
+        if len(outs) > 1:
+            yield (v, lt, ins, outs[:-1]), us
+    for coin in COINS:
+        for f in SHAPES[:2] + SHAPES[3:5]:
+            us = us_for(f)
+            if any(u is None for u in us):
+                continue
+            n = len(f[2])
+            for f2, us2 in edits(f, us):
+                n2 = min(n, len(f2[2]))
+                for kd in "wl":
+                    c1 = [(kd, 0, 1), (kd, n - 1, rng.choice([1, 0x41]))]
+                    c2 = [(kd, 0, 1), (kd, n2 - 1, 1), (kd, 0, rng.choice(HT)), (kd, rng.randrange(n2), rng.choice(HT))]
+                    emit("c04_seq2 %s %s %s %s %s %s %s %s" % (coin, show_fields(f), show_us(us), show_fields(f2), show_us(us2), hx(code_with(0, False)),
+                                                            ",".join("%s:%d:%d" % c for c in c1), ",".join("%s:%d:%d" % c for c in c2)), "edited-in-place")
     # ---- Tx.check_solution observed: signed transactions over the standard puzzle kinds, all six standard hash types,
     # as signed and after a change that makes the signature fail (the message must be the consensus one either way)
     for coin in COINS:
